@@ -301,14 +301,15 @@ Qed.
 
 Lemma all_targets_length : forall es, (length (all_targets es) <= length es)%nat.
 Proof.
-  induction es as [|[c [t|]] es IH]; cbn; lia.
+  unfold all_targets.
+  induction es as [|[c [t|]] es IH]; cbn [flat_map snd app length] in *; lia.
 Qed.
 
 Lemma loop_length : forall (rec : key -> list ev * outcome) M c es,
   (forall t, (length (fst (rec t)) <= M)%nat) ->
   (length (fst (loop_impl rec c es)) <= length es * M)%nat.
 Proof.
-  intros rec M c es H. induction es as [|[c' [t|]] es IH]; cbn [loop_impl length]; [cbn; lia| |lia].
+  intros rec M c es H. induction es as [|[c' [t|]] es IH]; cbn [loop_impl length Nat.mul fst]; [lia| |lia].
   destruct (c' =? c); [|lia].
   unfold andthen. destruct (is_done (snd (rec t))).
   - cbn [fst]. rewrite app_length. specialize (H t). lia.
@@ -341,7 +342,7 @@ Lemma starts_length : forall (rec : key -> list ev * outcome) M ts,
   (forall t, (length (fst (rec t)) <= M)%nat) ->
   (length (fst (starts_impl rec ts)) <= length ts * M)%nat.
 Proof.
-  intros rec M ts H. induction ts as [|t ts IH]; cbn [starts_impl length]; [cbn; lia|].
+  intros rec M ts H. induction ts as [|t ts IH]; cbn [starts_impl length Nat.mul]; [cbn; lia|].
   destruct (failed (snd (rec t))).
   - specialize (H t). lia.
   - cbn [fst]. rewrite app_length. specialize (H t). lia.
@@ -373,7 +374,7 @@ Definition flows_bound (fuel : nat) (d : dir) (fs : list flow) : nat :=
 Lemma flows_bound_rev : forall fuel d fs, flows_bound fuel d (rev fs) = flows_bound fuel d fs.
 Proof.
   intros fuel d fs. unfold flows_bound. induction fs as [|f fs IH]; [reflexivity|].
-  cbn [rev map list_sum]. rewrite map_app, list_sum_app, IH. cbn. lia.
+  cbn [rev]. rewrite map_app, list_sum_app, IH. unfold list_sum. cbn [map fold_right]. lia.
 Qed.
 
 Lemma tag_length : forall f d t, length (tag f d t) = length t.
@@ -387,7 +388,7 @@ Section TxnLength.
     (length (fst (run_list fuel beh d fs)) <= flows_bound fuel d fs)%nat.
   Proof.
     intros d fs. induction fs as [|f fs IH]; [cbn; lia|].
-    cbn [run_list]. unfold flows_bound in *. cbn [map list_sum].
+    cbn [run_list]. unfold flows_bound, list_sum in *. cbn [map fold_right].
     pose proof (flow_length fuel f d None (beh (fname f))) as L.
     destruct (failed (snd (exec_flow_impl fuel f d None (beh (fname f))))).
     - cbn [fst]. rewrite tag_length. lia.
@@ -398,7 +399,7 @@ Section TxnLength.
     (length (fst (run_users_res fuel beh sc fs)) <= flows_bound fuel Res fs)%nat.
   Proof.
     intros sc fs. induction fs as [|f fs IH]; [cbn; lia|].
-    cbn [run_users_res]. unfold flows_bound in *. cbn [map list_sum].
+    cbn [run_users_res]. unfold flows_bound, list_sum in *. cbn [map fold_right].
     match goal with |- context [exec_flow_impl fuel f Res ?st _] => set (st0 := st) end.
     pose proof (flow_length fuel f Res st0 (beh (fname f))) as L.
     destruct (failed (snd (exec_flow_impl fuel f Res st0 (beh (fname f))))).
@@ -410,7 +411,7 @@ Section TxnLength.
     (length (fst (fst (run_users_req fuel beh fs))) <= flows_bound fuel Req fs)%nat.
   Proof.
     induction fs as [|f fs IH]; [cbn; lia|].
-    cbn [run_users_req]. unfold flows_bound in *. cbn [map list_sum].
+    cbn [run_users_req]. unfold flows_bound, list_sum in *. cbn [map fold_right].
     pose proof (flow_length fuel f Req None (beh (fname f))) as L.
     destruct (snd (exec_flow_impl fuel f Req None (beh (fname f)))).
     - destruct (run_users_req fuel beh fs) as [[t2 sc] e]. cbn [fst] in *.
@@ -524,3 +525,174 @@ Section TxnLength.
     apply run_res_failed.
   Qed.
 End TxnLength.
+
+(* ------------------------------------------------- the builder terminates *)
+
+Lemma find_flow_in : forall cf n f,
+  find_flow cf n = Some f -> In n (map fc_name (cf_flows cf)) /\ In f (cf_flows cf).
+Proof.
+  intros cf n f H. unfold find_flow in H. apply find_some in H.
+  destruct H as [I E]. apply Z.eqb_eq in E. split; [|exact I].
+  rewrite <- E. apply in_map. exact I.
+Qed.
+
+Lemma build_list_no_fuel : forall step cs s,
+  (forall c s', step c s' <> BFuel) -> build_list step cs s <> BFuel.
+Proof.
+  intros step cs. induction cs as [|c cs IH]; intros s H; cbn [build_list]; [discriminate|].
+  destruct (step c s) eqn:E; [apply IH; exact H|discriminate|].
+  exfalso. eapply H. exact E.
+Qed.
+
+Section BuilderProofs.
+  Variable cf : config.
+  Variable top : Z.
+  Variable d : dir.
+
+  Lemma incorporate_no_fuel : forall rec stack name st,
+    (forall cs st', ~ In name stack -> In name (map fc_name (cf_flows cf)) ->
+                    rec name (name :: stack) cs st' <> BFuel) ->
+    incorporate cf true d rec stack name st <> BFuel.
+  Proof.
+    intros rec stack name st H. unfold incorporate.
+    destruct (find_flow cf name) as [f|] eqn:F; [|discriminate].
+    cbn [andb]. destruct (memZ name stack) eqn:M; [discriminate|].
+    apply H; [apply memZ_false; exact M|apply (find_flow_in _ _ _ F)].
+  Qed.
+
+  Lemma build_conn_no_fuel : forall rec cur stack c s,
+    (forall name st, incorporate cf true d rec stack name st <> BFuel) ->
+    build_conn cf true top d rec cur stack c s <> BFuel.
+  Proof.
+    intros rec cur stack c [b foreign] Hinc. unfold build_conn.
+    repeat match goal with
+           | |- context [match ?x with _ => _ end] => destruct x eqn:?
+           end;
+      try discriminate;
+      try (exfalso; eapply Hinc; eassumption).
+  Qed.
+
+  Lemma build_conns_no_fuel : forall fuel cur stack cs s,
+    NoDup stack -> incl stack (top :: map fc_name (cf_flows cf)) ->
+    (S (length (cf_flows cf)) - length stack < fuel)%nat ->
+    build_conns cf true top d fuel cur stack cs s <> BFuel.
+  Proof.
+    induction fuel as [|f IH]; intros cur stack cs s ND INC L; [lia|].
+    cbn [build_conns]. apply build_list_no_fuel. intros c s'.
+    apply build_conn_no_fuel. intros name st.
+    apply incorporate_no_fuel. intros cs' st' NI IN.
+    assert (ND' : NoDup (name :: stack)) by (constructor; assumption).
+    assert (INC' : incl (name :: stack) (top :: map fc_name (cf_flows cf))).
+    { intros x [E|I]; [subst; right; exact IN|apply INC; exact I]. }
+    pose proof (NoDup_incl_length ND' INC') as LEN. cbn [length] in LEN.
+    rewrite map_length in LEN.
+    apply IH; [exact ND'|exact INC'|cbn [length]; lia].
+  Qed.
+End BuilderProofs.
+
+Lemma build_flow_no_fuel : forall cf allstarts fc, build_flow cf true allstarts fc <> FFuel.
+Proof.
+  intros cf allstarts fc. unfold build_flow.
+  assert (B : forall d s, build_conns cf true (fc_name fc) d (build_fuel cf) (fc_name fc)
+                                      [fc_name fc] (fc_conns fc d) s <> BFuel).
+  { intros d s. apply build_conns_no_fuel.
+    - constructor; [intros []|constructor].
+    - intros x [E|[]]. subst. left. reflexivity.
+    - unfold build_fuel. cbn [length]. lia. }
+  pose proof (B Req (empty_bdir, None)) as BQ. cbn [fc_conns] in BQ.
+  destruct (build_conns cf true (fc_name fc) Req (build_fuel cf) (fc_name fc) [fc_name fc]
+                        (fc_req fc) (empty_bdir, None)) as [[bq foreign]| |]; [|discriminate|contradiction].
+  pose proof (B Res (empty_bdir, foreign)) as BS. cbn [fc_conns] in BS.
+  destruct (build_conns cf true (fc_name fc) Res (build_fuel cf) (fc_name fc) [fc_name fc]
+                        (fc_res fc) (empty_bdir, foreign)) as [[bs fo2]| |]; [|discriminate|contradiction].
+  pose proof (validate_dir_no_fuel allstarts Req (to_dgraph bq)) as VQ.
+  destruct (validate_dir allstarts Req (to_dgraph bq)); [|discriminate|contradiction].
+  pose proof (validate_dir_no_fuel allstarts Res (to_dgraph bs)) as VS.
+  destruct (validate_dir allstarts Res (to_dgraph bs)); [|discriminate|contradiction].
+  destruct (nodes (to_dgraph bq)); destruct (nodes (to_dgraph bs)); discriminate.
+Qed.
+
+Lemma build_flow_ok : forall cf fc f,
+  build_flow cf true true fc = FOk f ->
+  validate_dir true Req (freq f) = VOk /\ validate_dir true Res (fres f) = VOk
+  /\ fname f = fc_name fc.
+Proof.
+  intros cf fc f. unfold build_flow.
+  destruct (build_conns cf true (fc_name fc) Req _ _ _ _ _) as [[bq foreign]| |]; try discriminate.
+  destruct (build_conns cf true (fc_name fc) Res _ _ _ _ _) as [[bs fo2]| |]; try discriminate.
+  destruct (validate_dir true Req (to_dgraph bq)) eqn:VQ; try discriminate.
+  destruct (validate_dir true Res (to_dgraph bs)) eqn:VS; try discriminate.
+  destruct (nodes (to_dgraph bq)); destruct (nodes (to_dgraph bs)); try discriminate;
+    intros H; inversion H; subst; cbn [freq fres fname]; repeat split; assumption.
+Qed.
+
+Definition flow_valid (f : flow) : Prop :=
+  validate_dir true Req (freq f) = VOk /\ validate_dir true Res (fres f) = VOk.
+
+Lemma build_all_ok : forall cf fcs fs,
+  build_all cf true true fcs = Accept fs -> Forall flow_valid fs.
+Proof.
+  intros cf fcs. induction fcs as [|fc fcs IH]; intros fs H; cbn [build_all] in H.
+  - inversion H. constructor.
+  - destruct (build_flow cf true true fc) as [f| |] eqn:B.
+    + destruct (build_all cf true true fcs) as [fs'| |] eqn:R; try discriminate.
+      inversion H. subst. constructor; [|apply IH; reflexivity].
+      destruct (build_flow_ok _ _ _ B) as [A [C _]]. split; assumption.
+    + destruct (build_all cf true true fcs); discriminate.
+    + discriminate.
+Qed.
+
+Lemma build_all_no_fuel : forall cf allstarts fcs, build_all cf true allstarts fcs <> LoaderFuel.
+Proof.
+  intros cf allstarts fcs. induction fcs as [|fc fcs IH]; cbn [build_all]; [discriminate|].
+  pose proof (build_flow_no_fuel cf allstarts fc) as N.
+  destruct (build_flow cf true allstarts fc); [| |contradiction].
+  - destruct (build_all cf true allstarts fcs); [discriminate|discriminate|contradiction].
+  - destruct (build_all cf true allstarts fcs); [discriminate|discriminate|contradiction].
+Qed.
+
+Lemma load_no_fuel : forall cf allstarts, load_with true allstarts cf <> LoaderFuel.
+Proof.
+  intros cf allstarts. unfold load_with.
+  destruct (negb (struct_ok cf)); [discriminate|].
+  destruct (negb (procs_ok cf)); [discriminate|].
+  apply build_all_no_fuel.
+Qed.
+
+Lemma load_accept_valid : forall cf fs, load cf = Accept fs -> Forall flow_valid fs.
+Proof.
+  intros cf fs. unfold load, load_with.
+  destruct (negb (struct_ok cf)); [discriminate|].
+  destruct (negb (procs_ok cf)); [discriminate|].
+  apply build_all_ok.
+Qed.
+
+(* ---------------------------------------------------- the whole transaction *)
+
+Lemma exec_fuel_ge : forall fs f,
+  In f fs -> (exec_fuel_of (freq f) <= exec_fuel fs)%nat /\ (exec_fuel_of (fres f) <= exec_fuel fs)%nat.
+Proof.
+  intros fs f. induction fs as [|g fs IH]; intros I; [contradiction|].
+  cbn [exec_fuel fold_right]. fold (exec_fuel fs). destruct I as [E|I].
+  - subst. lia.
+  - specialize (IH I). lia.
+Qed.
+
+Lemma valid_flows_ok : forall fs,
+  Forall flow_valid fs -> Forall (flow_ok (exec_fuel fs)) fs.
+Proof.
+  intros fs H. rewrite Forall_forall in *. intros f I.
+  destruct (H f I) as [A B]. destruct (exec_fuel_ge fs f I) as [LA LB].
+  split; eapply validate_dir_ok; eauto.
+Qed.
+
+(* the selected flows are among the loaded ones *)
+Definition sel_from (fs : list flow) (s : selection) : Prop :=
+  incl (s_start s) fs /\ incl (s_user s) fs /\ incl (s_end s) fs.
+
+Lemma sel_from_ok : forall fs fuel s,
+  Forall (flow_ok fuel) fs -> sel_from fs s -> sel_ok fuel s.
+Proof.
+  intros fs fuel s H [A [B C]]. rewrite Forall_forall in H.
+  repeat split; apply Forall_forall; intros f I; apply H; [apply A|apply B|apply C]; exact I.
+Qed.
